@@ -19,6 +19,8 @@ ID = 'C08'
 LEVEL = 'proof'
 TIE = {'core.get_n_best / Plurality and every evaluator ending in it; HighestAverages; LargestRemainder; TransferableVote*':
            'models shared with C09 / C01 / C02 / C03 (correspondence there); shape theorems here',
+       'Copeland / Schulze / MinimaxCondorcet / RankedPairs / KemenyYoung; ScoreVoting / MajorityJudgment / STAR; ProportionalApproval / SequentialProportionalApproval; PreferenceAddition':
+           'models shared with C05 / C12 / C17 (correspondence there); shape theorems here (Proofs/Shape2_proofs.v), and their outputs are judged by the extracted checker as well',
        'every other evaluator of harness/evalreg.py': 'outputs judged by the extracted verified checker sel_shape_ok (selections) / declarative clauses (distributions)'}
 RULE = ('sweep: for each of the 65 evaluator configurations (63 of harness/evalreg.py + AllocatedScoreDistributor hare / droop; simple / approval / ranked incl. shared ranks / score / pairwise votes) random profiles '
         'with positive total weight, every n in 1..#candidates (sampled); selection results are encoded and judged by the extracted checker '
